@@ -387,6 +387,41 @@ def rule_checked_read(m):
                                      '`%s` is filled by %s at %s but used at %s without the success of that read having '
                                      'been tested: on a file cut inside a record the stale / indeterminate value becomes '
                                      'an edge' % (vname, kind, f.nloc(call), f.nloc(u))))
+    # ---- end-of-file look-ahead: the int_type of peek() / get() is compared with EOF as an int, never through a char
+    for f in m.fns:
+        if not f.tname.startswith(IO) or f.is_lambda:
+            continue
+        tt = Terms(f)
+
+        def _is_look(t):
+            t = strip_cast(t)
+            return t[0] == 'mcall' and t[1].split('::')[-1] in ('peek', 'get') and not t[3]
+
+        def _charvar(t):
+            return t[0] == 'var' and f.unit.decl(t[1]).get('ctype', '').replace('const ', '') in ('char', 'signed char', 'unsigned char')
+        for n in f.nodes:
+            if n['k'] != 'BinaryOperator' or n.get('op') not in ('==', '!='):
+                continue
+            t = tt.t(n['i'])
+            if t[0] != 'bin':
+                continue
+            for a, b in ((t[2], t[3]), (t[3], t[2])):
+                b = strip_cast(b)
+                if not (b == ('int', -1) or (b[0] == 'un' and b[1] == '-' and strip_cast(b[3]) == ('int', 1))):
+                    continue
+                a = strip_cast(a)
+                narrowed = None
+                if a[0] == 'bin' and a[1] == '=' and _charvar(a[2]) and _is_look(a[3]):
+                    narrowed = a[2]
+                elif _charvar(a) and any(d[1] >= 0 and _is_look(tt.t(d[1])) for d in var_defs(f, a[1])):
+                    narrowed = a
+                if narrowed is not None:
+                    res.sites += 1
+                    res.fail(Finding('F-IO.READ', f.display(), 'end-of-file look-ahead', f.nloc(n['i']),
+                                     '`%s` compares the look-ahead with EOF after storing it in the %s variable `%s`: the data byte 0xFF '
+                                     'converts to -1 and is taken for the end of the file, so loading stops silently at the first '
+                                     'record that starts with that byte' % (f.expr_text(n['i'])[:60], f.unit.decl(narrowed[1])['ctype'],
+                                                                              f.unit.decl(narrowed[1])['name'])))
     # ---- the read primitive itself reports every short read
     for f in io_functions(m, READ):
         res.sites += 1
@@ -987,7 +1022,7 @@ def _chain_args(f, tt, nid):
     return out, n
 
 
-def _adjacency_walk(m, f, tt, graphs):
+def _adjacency_walk(m, f, tt, graphs, exact=True):
     """`for (i : graph) for (j : graph.getOutNeighbours(i)) { [guard] write(i, j) }` - an enumeration of the edges that does not go
     through edges().  Returns None when the function has no such nest, else (first, second, body nodes, why) where `why` is set
     when the guards do not keep exactly the entries edges() yields: every list entry for directed storage, one of the two
@@ -1039,7 +1074,9 @@ def _adjacency_walk(m, f, tt, graphs):
                 lt, gt_, eq = kept[(0, 1, 1)], kept[(1, 0, 1)], kept[(1, 1, 1)]
                 if not eq:
                     why = 'the self-loop entry (i == j) is not written'
-                elif lt == gt_:
+                elif lt == gt_ and (exact or not lt):
+                    # (`exact`: the file must hold one record per edge - the binary format; the text loader's unforced
+                    # insertion makes a second mention of an undirected edge harmless)
                     why = 'for an undirected graph both mirrored entries (i,j) and (j,i) are %s: every edge is written %s' % (
                         'kept' if lt else 'skipped', 'twice' if lt else 'never')
             else:
@@ -1401,6 +1438,39 @@ def rule_schema_text(m):
         if cm is None:
             why = why or 'expected a comment-character test `line[0] == <char>` followed by continue'
         comment = cm
+        # the line loop ends on the failure of getline, not on eof: the last line of a file without a final newline is
+        # delivered together with eofbit
+        for n in f.nodes:
+            if n['k'] == 'CallExpr' and 'callee' in n and f.unit.decl(n['callee'])['tname'] == 'std::getline':
+                gt = tt.t(n['i'])
+                cond = None
+                for a in f.ancestors(n['i']):
+                    an = f.nodes[a]
+                    if an['k'] in ('WhileStmt', 'ForStmt', 'IfStmt', 'DoStmt') and an.get('cond', -1) >= 0 and \
+                            (n['i'] == an['cond'] or n['i'] in f.descendants(an['cond'])):
+                        cond = an['cond']
+                        break
+                if cond is None:
+                    why = why or 'expected the result of std::getline to be tested by the line loop'
+                    continue
+                for c in _cj(strip_conv_call(tt.t(cond))):
+                    c = strip_conv_call(c)
+                    neg = False
+                    while c[0] == 'un' and c[1] == '!':
+                        c = strip_conv_call(c[3])
+                        neg = not neg
+                    if gt not in list(subterms(c)):
+                        continue
+                    if c == gt:
+                        continue                    # while (getline(...)) / if (!getline(...)) break
+                    if c[0] == 'mcall' and strip_conv_call(c[2]) == gt and c[1].endswith('::fail'):
+                        continue
+                    if c[0] == 'mcall' and strip_conv_call(c[2]) == gt and c[1].endswith(('::good', '::eof')):
+                        why = why or ('the line loop tests `%s`: std::getline sets eofbit when the last line has no final newline, so '
+                                      'that line is read but never processed (its edge is dropped without an error)'
+                                      % f.expr_text(cond)[:60])
+                    else:
+                        why = why or 'expected the line loop to test the stream returned by std::getline'
         # tokeniser call and default delimiters
         tok = [n for n in f.nodes if n['k'] == 'CallExpr' and 'callee' in n and
                f.unit.decl(n['callee'])['tname'] == IO + 'findEdgeFromString']
@@ -1495,12 +1565,20 @@ def rule_schema_text(m):
         why = None
         loops = [n for n in f.nodes if n['k'] == 'CXXForRangeStmt' and tt.t(n['rangeinit'])[0] == 'mcall' and
                  tt.t(n['rangeinit'])[1].endswith('::edges') and tt.t(n['rangeinit'])[2] == ('var', f.params[0])]
-        if len(loops) != 1:
-            why = 'the writer does not enumerate graph.edges() exactly once'
+        walk = _adjacency_walk(m, f, tt, {('var', f.params[0])}, exact=False) if len(loops) != 1 else None
+        if len(loops) > 1:
+            why = 'the writer enumerates graph.edges() more than once'
+        elif not loops and walk is None:
+            why = 'expected one loop over graph.edges() (or over the neighbour lists of every vertex) in the writer'
+        elif walk is not None and walk[3]:
+            why = walk[3]
         else:
-            body = set(f.descendants(loops[0]['body']))
-            e = ('var', loops[0]['loopvar'])
-            first, second = ('member', e, 'std::pair::first'), ('member', e, 'std::pair::second')
+            if walk is not None:
+                first, second, body = walk[0], walk[1], walk[2]
+            else:
+                body = set(f.descendants(loops[0]['body']))
+                e = ('var', loops[0]['loopvar'])
+                first, second = ('member', e, 'std::pair::first'), ('member', e, 'std::pair::second')
             # all << chains on the stream
             chains = []
             for n in f.nodes:
